@@ -224,11 +224,32 @@ func runC17Round(w *World, round int) {
 		})
 		expect(name, o, false)
 	}
-	at, cc, pc, lg = lb.OpenChannel(ChanSpec{ConsPort: "consumer", ProvPort: "provider", Version: "1", Order: channeltypes.ORDERED}, lb.ConsConn, lb.ProvConn)
+	// concurrent handshakes for the same consumer, delivered in lock step (INITs, TRYs, ACKs, CONFIRMs): the provider
+	// completes exactly one of them
+	nPar := 2 + round%2
+	hs := lb.OpenChannelsInterleaved(ChanSpec{ConsPort: "consumer", ProvPort: "provider", Version: "1", Order: channeltypes.ORDERED}, lb.ConsConn, lb.ProvConn, nPar)
 	w.Eval("C17")
-	w.Case("C17", "attempt:honest-second-consumer")
-	if at != "" {
-		w.Violation("C17", "honest-handshake-rejected", map[string]any{"consumer": lb.CID, "step": at, "log": lg})
+	w.Event("C17", "interleaved-handshake-groups")
+	done := 0
+	cc, pc = "", ""
+	for i, h := range hs {
+		w.Event("C17", "handshake-attempts")
+		w.Case("C17", fmt.Sprintf("attempt:interleaved-%d-of-%d refused-at=%s", i+1, nPar, h.FailedAt))
+		if h.FailedAt == "" {
+			done++
+			if cc == "" {
+				cc, pc = h.ConsChan, h.ProvChan
+			}
+		} else {
+			w.Event("C17", "handshake-attempts-rejected")
+			w.Sample("C17", map[string]any{"attempt": "interleaved", "index": i, "rejected_at": h.FailedAt, "log": h.Log})
+		}
+	}
+	if done > 1 {
+		w.Violation("C17", "second-ccv-channel-completed:interleaved", map[string]any{"consumer": lb.CID, "completed": done, "of": nPar})
+	}
+	if done == 0 {
+		w.Violation("C17", "honest-handshake-rejected", map[string]any{"consumer": lb.CID, "step": hs[0].FailedAt, "log": hs[0].Log})
 		return
 	}
 	lb.ConsChan, lb.ProvChan = cc, pc
@@ -246,6 +267,14 @@ func runC17Round(w *World, round int) {
 		w.Tick()
 		w.ProviderStep(nil, false, nil)
 		w.ConsumersStep()
+	}
+	// the consumer adopts the channel the provider completed
+	if ch, adopted := lb.C.CApp.ConsumerKeeper.GetProviderChannel(lb.C.Ctx()); adopted {
+		w.Eval("C17")
+		w.Event("C17", "consumer-adoptions-checked")
+		if ch != lb.ConsChan {
+			w.Violation("C17", "consumer-adopted-a-channel-the-provider-did-not-complete-first", map[string]any{"consumer": lb.CID, "adopted": ch, "completed": lb.ConsChan})
+		}
 	}
 	// once the provider channel is adopted, the consumer refuses to open further CCV channels
 	o3 := w.stepOn(la.C, "", nil, func(signer string) []sdk.Msg {
